@@ -567,6 +567,11 @@ def run(ctx, rep):
                 continue
             if c.bb not in live or (next_call is not None and c.bb == next_call.bb):
                 continue
+            # (`components.clone().next()`: a look-ahead on a throw-away copy advances the copy, not the iterator)
+            ds = g.whole_defs(pl[0])
+            if ds and all(d[0] == 'call' and (d[3].decl or '') == 'std::clone::Clone::clone' for d in ds) and \
+                    [u for u in g.uses_of(pl[0]) if u[1] not in ('drop',)].__len__() == 1:
+                continue
             last = (c.decl or c.name or '?').rsplit('::', 1)[-1]
             if last in ('peek', 'peek_mut', 'size_hint', 'len', 'as_path'):
                 continue
